@@ -61,17 +61,22 @@ theorem perRefines_trans {b b1 b2 : Basis K} {C1 C2 : Mat K} {k1 k2 : ℕ} (hv :
     rw [← Nat.add_assoc, ← Nat.add_assoc, e2]
     exact h1.same c s d t ht
 
-/-- one periodic insertion of an arbitrary real (wrapped), as a `PerRefines` step -/
-theorem insertKnot_per_step (b : Basis K) (hv : b.Valid) (k : ℕ) (hk : b.periodic = (k : Int))
-    (hguard : b.order + k ≤ b.numFunctions) (x0 : K) (hne : wrapVal b x0 ≠ b.stop) :
+/-- one periodic insertion of ANY real (wrapped; the domain end included), as a `PerRefines` step -/
+theorem insertKnot_per_step_any (b : Basis K) (hv : b.Valid) (k : ℕ) (hk : b.periodic = (k : Int))
+    (hguard : b.order + k ≤ b.numFunctions) (x0 : K) :
     ∃ b' C, b.insertKnot x0 = .ok (b', C) ∧ PerRefines b b' C 1 := by
   obtain ⟨h1, h2, _⟩ := wrapVal_mem b hv.start_lt_stop x0
-  have hlt : wrapVal b x0 < b.stop := lt_of_le_of_ne h2 hne
   obtain ⟨b', C, e1, e2, e3, e4, e5, e6, e7, e8, _, e10, e11⟩ :=
-    insertKnot_periodic_geom b hv k hk hguard (wrapVal b x0) ⟨h1, hlt⟩
+    insertKnot_periodic_geom_le b hv k hk hguard (wrapVal b x0) ⟨h1, h2⟩
   refine ⟨b', C, ?_, ⟨e2, e3, e4, e5, e6, e7, e8, e10, e11⟩⟩
   rw [insertKnot_wrap b (by rw [hk]; omega) hv.start_lt_stop x0]
   exact e1
+
+/-- (kept for its users) the same with the superfluous hypothesis `wrapVal b x0 ≠ b.stop` -/
+theorem insertKnot_per_step (b : Basis K) (hv : b.Valid) (k : ℕ) (hk : b.periodic = (k : Int))
+    (hguard : b.order + k ≤ b.numFunctions) (x0 : K) (_hne : wrapVal b x0 ≠ b.stop) :
+    ∃ b' C, b.insertKnot x0 = .ok (b', C) ∧ PerRefines b b' C 1 :=
+  insertKnot_per_step_any b hv k hk hguard x0
 
 theorem wrapVal_congr (b b1 : Basis K) (h1 : b1.start = b.start) (h2 : b1.stop = b.stop) (x0 : K) :
     wrapVal b1 x0 = wrapVal b x0 := by
@@ -82,20 +87,16 @@ theorem wrapVal_congr (b b1 : Basis K) (h1 : b1.start = b.start) (h2 : b1.stop =
 theorem insertMany_periodic_aux (b0 : Basis K) (hv0 : b0.Valid) (k : ℕ)
     (hk : b0.periodic = (k : Int)) (hguard : b0.order + k ≤ b0.numFunctions) (xs : List K) :
     ∀ (b : Basis K) (Cacc : Mat K) (m : ℕ), PerRefines b0 b Cacc m →
-      (∀ x ∈ xs, wrapVal b0 x ≠ b0.stop) →
       ∃ b' C, insertMany b Cacc xs = .ok (b', C) ∧ PerRefines b0 b' C (m + xs.length) := by
   induction xs with
   | nil =>
-    intro b Cacc m h _
+    intro b Cacc m h
     exact ⟨b, Cacc, rfl, h⟩
   | cons x xs ih =>
-    intro b Cacc m h hxs
-    have hx := hxs x List.mem_cons_self
-    obtain ⟨b1, C1, hins, hr1⟩ := insertKnot_per_step b h.valid k (h.periodic_eq.trans hk)
+    intro b Cacc m h
+    obtain ⟨b1, C1, hins, hr1⟩ := insertKnot_per_step_any b h.valid k (h.periodic_eq.trans hk)
       (by rw [h.order_eq, h.num_eq]; omega) x
-      (by rw [wrapVal_congr b0 b h.start_eq h.stop_eq, h.stop_eq]; exact hx)
     obtain ⟨b', C, hm, hr⟩ := ih b1 (Mat.mul C1 Cacc) (m + 1) (perRefines_trans hv0 h hr1)
-      (fun y hy => hxs y (List.mem_cons_of_mem _ hy))
     refine ⟨b', C, ?_, ?_⟩
     · unfold insertMany at hm ⊢
       rw [List.foldlM_cons]
@@ -108,25 +109,23 @@ theorem insertMany_periodic_aux (b0 : Basis K) (hv0 : b0.Valid) (k : ℕ)
     · have e : m + (x :: xs).length = m + 1 + xs.length := by simp; omega
       rw [e]; exact hr
 
-theorem insertMany_periodic (b : Basis K) (hv : b.Valid) (k : ℕ) (hk : b.periodic = (k : Int))
-    (hguard : b.order + k ≤ b.numFunctions) (xs : List K)
-    (hxs : ∀ x ∈ xs, wrapVal b x ≠ b.stop) :
+theorem insertMany_periodic_any (b : Basis K) (hv : b.Valid) (k : ℕ) (hk : b.periodic = (k : Int))
+    (hguard : b.order + k ≤ b.numFunctions) (xs : List K) :
     ∃ b' C, insertMany b (Mat.identity b.numFunctions) xs = .ok (b', C) ∧
       PerRefines b b' C xs.length := by
   obtain ⟨b', C, h1, h2⟩ :=
     insertMany_periodic_aux b hv k hk hguard xs b (Mat.identity b.numFunctions) 0
-      (perRefines_refl b hv) hxs
+      (perRefines_refl b hv)
   exact ⟨b', C, h1, by simpa using h2⟩
 
 /-- `Obj.insertKnots` along a valid PERIODIC direction (guard `n ≥ p+k`, control-net length `n`):
     success, refined periodic basis, every control-net fibre along `dir` is `C` applied to the old
     fibre. -/
-theorem insertKnots_fibres_periodic (o : Obj K) (dir : ℕ) (hdir : dir < o.bases.size)
+theorem insertKnots_fibres_periodic_any (o : Obj K) (dir : ℕ) (hdir : dir < o.bases.size)
     (hax : dir < o.cps.shape.length) (hv : (o.basis dir).Valid) (k : ℕ)
     (hk : (o.basis dir).periodic = (k : Int))
     (hguard : (o.basis dir).order + k ≤ (o.basis dir).numFunctions)
-    (hshape : o.cps.shape.getD dir 0 = (o.basis dir).numFunctions) (xs : List K)
-    (hxs : ∀ x ∈ xs, wrapVal (o.basis dir) x ≠ (o.basis dir).stop) :
+    (hshape : o.cps.shape.getD dir 0 = (o.basis dir).numFunctions) (xs : List K) :
     ∃ o' C, o.insertKnots xs dir = .ok o' ∧
       PerRefines (o.basis dir) (o'.basis dir) C xs.length ∧
       (∀ d, d ≠ dir → o'.basis d = o.basis d) ∧ o'.rational = o.rational ∧
@@ -135,7 +134,7 @@ theorem insertKnots_fibres_periodic (o : Obj K) (dir : ℕ) (hdir : dir < o.base
       (∀ a i r, a < outerN o dir → i < innerN o dir → r < (o.basis dir).numFunctions + xs.length →
         fibre o' dir a i r = mulVec C (o.basis dir).numFunctions (fibre o dir a i) r) ∧
       o'.bases = o.bases.set! dir (o'.basis dir) := by
-  obtain ⟨b', C, hm, hr⟩ := insertMany_periodic (o.basis dir) hv k hk hguard xs hxs
+  obtain ⟨b', C, hm, hr⟩ := insertMany_periodic_any (o.basis dir) hv k hk hguard xs
   have hCsize : C.size = (o.basis dir).numFunctions + xs.length := hr.shape.1
   have hmid : (Tensor.split3 o.cps.shape dir).2.1 = (o.basis dir).numFunctions := by
     rw [← hshape]
@@ -163,6 +162,31 @@ theorem insertKnots_fibres_periodic (o : Obj K) (dir : ℕ) (hdir : dir < o.base
     change (Tensor.applyAxis C o.cps dir).at3 dir a r i = _
     rw [applyAxis_fibre C o.cps dir hax a r i ha (by omega) hi, hmid]
     rfl
+
+/-- (kept for its users) `insertMany_periodic_any` with the superfluous end-exclusion hypothesis -/
+theorem insertMany_periodic (b : Basis K) (hv : b.Valid) (k : ℕ) (hk : b.periodic = (k : Int))
+    (hguard : b.order + k ≤ b.numFunctions) (xs : List K)
+    (_hxs : ∀ x ∈ xs, wrapVal b x ≠ b.stop) :
+    ∃ b' C, insertMany b (Mat.identity b.numFunctions) xs = .ok (b', C) ∧
+      PerRefines b b' C xs.length :=
+  insertMany_periodic_any b hv k hk hguard xs
+
+/-- (kept for its users) `insertKnots_fibres_periodic_any` with the superfluous end-exclusion hypothesis -/
+theorem insertKnots_fibres_periodic (o : Obj K) (dir : ℕ) (hdir : dir < o.bases.size)
+    (hax : dir < o.cps.shape.length) (hv : (o.basis dir).Valid) (k : ℕ)
+    (hk : (o.basis dir).periodic = (k : Int))
+    (hguard : (o.basis dir).order + k ≤ (o.basis dir).numFunctions)
+    (hshape : o.cps.shape.getD dir 0 = (o.basis dir).numFunctions) (xs : List K)
+    (_hxs : ∀ x ∈ xs, wrapVal (o.basis dir) x ≠ (o.basis dir).stop) :
+    ∃ o' C, o.insertKnots xs dir = .ok o' ∧
+      PerRefines (o.basis dir) (o'.basis dir) C xs.length ∧
+      (∀ d, d ≠ dir → o'.basis d = o.basis d) ∧ o'.rational = o.rational ∧
+      o'.cps.shape = o.cps.shape.set dir ((o.basis dir).numFunctions + xs.length) ∧
+      outerN o' dir = outerN o dir ∧ innerN o' dir = innerN o dir ∧
+      (∀ a i r, a < outerN o dir → i < innerN o dir → r < (o.basis dir).numFunctions + xs.length →
+        fibre o' dir a i r = mulVec C (o.basis dir).numFunctions (fibre o dir a i) r) ∧
+      o'.bases = o.bases.set! dir (o'.basis dir) :=
+  insertKnots_fibres_periodic_any o dir hdir hax hv k hk hguard hshape xs
 
 end C04
 end Splipy
